@@ -153,7 +153,7 @@ def run(ctx):
             holder = {}
 
             def read_file():
-                holder["fm"] = GlencoeReader(path).transform()
+                holder["fm"] = fmt.read_twice(GlencoeReader, path)
                 return holder["fm"]
             iread = sx.dumps(fmt.result_pfm(read_file))
             r.record("writer-output", rreq, iread, mread)
@@ -199,7 +199,7 @@ def run(ctx):
             holder = {}
 
             def read_file():
-                holder["fm"] = GlencoeReader(path).transform()
+                holder["fm"] = fmt.read_twice(GlencoeReader, path)
                 return holder["fm"]
             iread = sx.dumps(fmt.result_pfm(read_file))
             r.record(label, rreq, iread, mread)
@@ -235,7 +235,7 @@ def run_third_party(ctx):
             holder = {}
 
             def read_file():
-                holder["fm"] = GlencoeReader(path).transform()
+                holder["fm"] = fmt.read_twice(GlencoeReader, path)
                 return holder["fm"]
             iread = sx.dumps(fmt.result_pfm(read_file))
             r.record(label, rreq, iread, mread)
